@@ -1,1 +1,2 @@
-import FlowCalModel.Basic
+import FlowCalModel.Generated
+import FlowCalModel.Text
